@@ -206,6 +206,11 @@ def run_shard(spec, acc):
                     acc.count("locality_checks")
                     if (oi ^ base_out) & ~fm:
                         acc.violation("change-leaks-outside-field", f"{d.id}.{f.id}: assignment '{label}' changed bits outside the field (xor {((oi ^ base_out) & ~fm):#x})", w)
+                    # the assignment may have turned the payload into one that the database assigns to a sibling
+                    # definition (the changed field is a match field of that sibling): outside this property
+                    if dbx.select(d.pgn, oi) is not d:
+                        acc.count("decoded_as_other_definition")
+                        continue
                     # decode back
                     try:
                         back = dec.decode_basic_string(wire.plain_line(3, d.pgn, 5, 255, out), already_combined=True)
